@@ -91,6 +91,8 @@ type UpCall struct {
 	HadDeadline  bool
 	Deadline     time.Duration
 	Ended        bool
+	ConnWait     bool // had to wait for a connection of the bounded pool (Scenario.MaxConns)
+	GotConn      bool
 }
 
 type StoreOp struct {
@@ -186,6 +188,8 @@ type Run struct {
 	// store-level runs: phase currently executing, and whether an injected disk fault fired in the second one
 	curPhase      int
 	reqReuse      map[string]*reuseSlot
+	conns         []*connSlot       // connections of the bounded pool in use
+	connFree      chan struct{}     // closed (and replaced) whenever a connection is given back
 	stallSID      map[int]bool      // responses whose body stalls for ever: their reader only closes them
 	exchIdx       map[exchKey]*Exch // (client name, operation index) -> its latest exchange
 	judging       bool
